@@ -3,7 +3,7 @@
 # Applies the patch to the scratch worktree /tmp/mutrepo, builds a copy of the simulator against it, runs the check.
 set -u
 PATCH="$1"; PROP="$2"; TIER="${3:-quick}"
-git -C /tmp/mutrepo checkout -q -- . && git -C /tmp/mutrepo clean -fdq -e target
+git -C /tmp/mutrepo checkout -q -- . && git -C /tmp/mutrepo clean -fdq -e target && git -C /tmp/mutrepo checkout -q --detach $(git -C /repo rev-parse HEAD)
 git -C /tmp/mutrepo apply "$PATCH" || { echo "patch does not apply"; exit 3; }
 mkdir -p /tmp/mutsim
 rsync -a --delete --exclude target /verif/sim/ /tmp/mutsim/sim/
